@@ -146,9 +146,45 @@ def handleReply (ts0 : List String) : String :=
 def flagsTok (f : Flags) : String :=
   (if f.oneway then "1" else "0") ++ (if f.more then "1" else "0") ++ (if f.upgrade then "1" else "0")
 
+/-- `calldec M MF J <sexpr>`: the method type is `method` (which must be `x.F`) plus a catch-all that keeps every other
+    member it is handed; what it shows is compared with the members of the frame minus the three flags. -/
+def handleCallDecOpen (j : J) (obs : List String) : String :=
+  let isFlag (k : String) : Bool := k == "oneway" || k == "more" || k == "upgrade"
+  let res : Option (Members × Flags) := match j with
+    | .obj ms => match splitFlags ms with
+      | some (rest, o, m, u) =>
+        if count "method" rest == 1 && (match lookup "method" rest with | some (.str "x.F" _) => true | _ => false) then
+          some (rest, { oneway := o.getD false, more := m.getD false, upgrade := u.getD false })
+        else none
+      | none => none
+    | _ => none
+  let m := match res with
+    | some (rest, f) => "ok " ++ hexOfString (canon true (.obj rest)) ++ " " ++ flagsTok f
+    | none => "json"
+  let h : Bool := match j, obs with
+    | .obj ms, ["ok", mh, fl] =>
+      let want (k : String) : Option Bool := match (ms.filter (·.1 = k)).getLast? with
+        | some (_, .bool b) => some b | some _ => none | none => some false
+      let flagsOK := match want "oneway", want "more", want "upgrade" with
+        | some a, some b, some c => fl == flagsTok { oneway := a, more := b, upgrade := c }
+        | _, _, _ => false
+      -- hidden: the three flags; passed through: every other member, with its value
+      flagsOK && strOfHex mh == canon true (.obj (ms.filter fun p => !isFlag p.1))
+    | .obj ms, ["json"] =>
+      -- a frame naming the method, with boolean flags, may not be refused
+      !(count "method" ms == 1 && (match lookup "method" ms with | some (.str "x.F" _) => true | _ => false) &&
+        ms.all fun p => !isFlag p.1 || (match p.2 with | .bool _ => true | _ => false))
+    | _, ["json"] => true
+    | _, _ => false
+  "M " ++ m ++ " | H " ++ (if h then "1" else "0")
+
 /-- `calldec M <mshape> J <sexpr> => ok <hex canonical method> <omu> | json` -/
 def handleCallDec (ts : List String) : String :=
   match ts with
+  | _ :: "M" :: "MF" :: "J" :: js :: "=>" :: obs =>
+    match parseJ js with
+    | some j => handleCallDecOpen j obs
+    | none => "bad-json"
   | _ :: "M" :: msh :: "J" :: js :: "=>" :: obs =>
     match parseJ js with
     | some j =>
